@@ -13,11 +13,22 @@ at that address (values are not dumped: "", count 1).
                              the owner map read off the entries, and EVERY reported item is a live
                              value under the key bits of its owner (`C20_walk_only_written_keys`):
                              `C20_walk_stale_witness` cannot occur.
-NOT proved: "exactly once" (`C20_walk_complete` needs `PhysCol.Inv.inj` = one slot per tail, i.e.
-A-tail, and `nodup` of the entry lists of the dump).
+  * `C20_walk_complete_notail` / `C20_walk_dest_eq_source_notail`  the physical walk on ANY `PhysCol`
+                             satisfying `PhysCol.InvN` (one live slot per KEY instead of one per key
+                             tail: no A-tail) does not fail, reports exactly the keys `get` finds,
+                             each once, and migration gives destination = source
+  * `C20_walk_exact_notail`  for every reachable state `s'` of the fixed index model
+                             (`NoStale_run` + `AbsN` + `Prog`, Pdb/Props/C09NoStale.lean), with
+                             `physOf s'` = all index tables oldest first in walk order: the walk does
+                             not fail, reports every live key of `spec` exactly once with its value
+                             and count 1, and nothing else.  WITHOUT A-tail.
+  * `C20_migrate_reachable_notail`  composed with the migration theorem: for a reachable source
+                             state, destination cell = `expectCell` of the source's `spec` value
 -/
 import Pdb.Props.C20
 import Pdb.Props.C14Dump
+import Pdb.Props.C09NoStale
+import Pdb.Proofs.C20Bridge
 
 namespace Pdb.DumpCheck
 open Pdb.Gen Pdb.Index Pdb.Migrate
@@ -77,4 +88,165 @@ example : (walkItems (physOfDump exColumnQ)).length = 3 := by decide +kernel
 
 end Pdb.DumpCheck
 
+namespace Pdb.Migrate
+open Pdb Pdb.Gen
+
+section
+variable {P A T V : Type} [DecidableEq P] [DecidableEq A] [DecidableEq T]
+
+/-- `C20_walk_complete` without A-tail: under `InvN` (one live slot per key, no stale entry, no
+duplicate entry in a table) the walk the code performs does not fail and reports exactly the keys
+`get` finds, with their counts and values, each once. -/
+theorem C20_walk_complete_notail (p : PhysCol P A T V) (h : p.InvN) :
+    walkPhys p = some (walkItems p) ∧
+    (∀ k v n, (k, n, v) ∈ walkItems p ↔ p.content k = some (v, n)) ∧
+    ((walkItems p).map (·.1)).Nodup := by
+  refine ⟨by simp [walkPhys, walkOk_of_live p h.live], ?_, walkItems_keys_nodup_N p h⟩
+  intro k v n
+  rw [mem_walkItems, content_eq_some_iff_N p h]
+
+/-- `C20_walk_dest_eq_source` without A-tail. -/
+theorem C20_walk_dest_eq_source_notail (p : PhysCol P A T V) (h : p.InvN) (dstKind : Kind)
+    (items : List (Item (P × T) V)) (hw : walkPhys p = some items) (k : P × T) :
+    migrateWith items setsOf dstKind k = expectCell dstKind (p.content k) := by
+  have : items = walkItems p := by
+    have h1 := (C20_walk_complete_notail p h).1
+    rw [h1] at hw
+    exact (Option.some.inj hw).symm
+  rw [this]
+  exact walk_dest_eq_N p h dstKind k
+
+end
+end Pdb.Migrate
+
+namespace Pdb.Index
+open Pdb.Gen Pdb.IndexPage Pdb.Migrate
+
+/-- an entry showing the bits of the well-formed key `k` addresses a slot with `k`'s tail, value
+`v`, count `n`  iff  `n = 1` and the abstract map holds `v` for `k` -/
+theorem physOf_item_iff {s : Col} {m : Key → Option Val} (hS : Shape s) (hA : AbsN s m)
+    (k : Key) (hk : KeyWF k) (v : Val) (n : Nat) :
+    (∃ e ∈ (physOf s).tables.flatten, e.1 = vis k.pre ∧ (physOf s).slot e.2 = some (k.tail, v, n)) ↔
+      (n = 1 ∧ m k = some v) := by
+  constructor
+  · rintro ⟨e, he, h1, h2⟩
+    obtain ⟨kp, hkp, hv, hE⟩ := physOf_entry hS e he
+    simp only [physOf] at h2
+    cases hva : s.valAt e.2 with
+    | none => rw [hva] at h2; cases h2
+    | some sl =>
+      rw [hva] at h2
+      simp only [Option.map_some, Option.some.injEq, Prod.mk.injEq] at h2
+      obtain ⟨sl1, sl2⟩ := sl
+      simp only at h2
+      obtain ⟨r1, r2, r3⟩ := h2
+      subst r1; subst r2
+      refine ⟨r3.symm, (hA.abs k hk _).2 ⟨e.2, hva, ?_⟩⟩
+      exact Ent.of_vis hS hkp hk.pre_lt (hv.symm.trans h1) hE
+  · rintro ⟨rfl, hm⟩
+    obtain ⟨a, ha, t, ht, hh⟩ := (hA.abs k hk v).1 hm
+    refine ⟨(vis k.pre, a), (physOf_mem_flatten s _).2 ⟨t, ht, ?_⟩, rfl, ?_⟩
+    · exact (Table.mem_enum (hS.wf t ht) _ _).2 ⟨k.pre, hk.pre_lt, rfl, hh⟩
+    · simp [physOf, ha]
+
+/-- C20 on reachable states WITHOUT A-tail: the index walk over ALL index tables (queued ones
+oldest first, then the current one; an entry is skipped iff an older table holds the same key bits
+with the same address) of a state reached by ANY history of the fixed code does not fail, reports
+no key twice, reports every live key of the abstract map `spec` with its value (count 1), and
+reports nothing else: every item is a well-formed key that `spec` holds, with that value. -/
+theorem C20_walk_exact_notail (cfg : Cfg) (hex : cfg.exact = true) (hgrow : cfg.growOnMove = true)
+    (hpurge : cfg.purge = true) (b0 : Nat) (hb : 16 ≤ b0 ∧ b0 ≤ 49) (acts : List Action)
+    (hact : ∀ a ∈ acts, ActWF a) (hbound : AllBounded (Col.init cfg b0) acts) (s' : Col)
+    (hrun : runA (Col.init cfg b0) acts = .ok s') :
+    (physOf s').InvN ∧
+    walkPhys (physOf s') = some (walkItems (physOf s')) ∧
+    ((walkItems (physOf s')).map (·.1)).Nodup ∧
+    (∀ k, KeyWF k → ∀ v n, ((vis k.pre, k.tail), n, v) ∈ walkItems (physOf s') ↔
+      (n = 1 ∧ spec (fun _ => none) acts k = some v)) ∧
+    (∀ kk n v, (kk, n, v) ∈ walkItems (physOf s') →
+      ∃ k, KeyWF k ∧ kk = (vis k.pre, k.tail) ∧ n = 1 ∧ spec (fun _ => none) acts k = some v) := by
+  have hR := C09_run_inv_notail cfg hex hgrow hpurge b0 hb acts hact hbound s' hrun
+  have hS := hR.good.shape
+  have hN := hR.good.ns
+  have hI := physOf_invN hS hN hR.abs
+  obtain ⟨w1, _, w3⟩ := C20_walk_complete_notail (physOf s') hI
+  refine ⟨hI, w1, w3, fun k hk v n => ?_, fun kk n v hmem => ?_⟩
+  · rw [mem_walkItems]
+    exact physOf_item_iff hS hR.abs k hk v n
+  · obtain ⟨e, he, h1, h2⟩ := (mem_walkItems (physOf s') kk v n).1 hmem
+    obtain ⟨kp, hkp, hv, t, ht, hh⟩ := physOf_entry hS e he
+    obtain ⟨tl, htl, hbits⟩ := hN.live t ht kp e.2 hkp hh
+    obtain ⟨hwf, hvk⟩ := keyOf_wf kp tl hkp hbits
+    have hkt : kk.2 = tl := by
+      simp only [physOf] at h2
+      obtain ⟨vv, hvv⟩ := (tailAt_eq_some s' e.2 tl).1 htl
+      rw [hvv] at h2
+      simp only [Option.map_some, Option.some.injEq, Prod.mk.injEq] at h2
+      exact h2.1.symm
+    have hkk : kk = (vis (keyOf kp tl).pre, (keyOf kp tl).tail) := by
+      apply Prod.ext
+      · show kk.1 = vis (keyOf kp tl).pre
+        rw [hvk, ← h1, hv]
+      · exact hkt
+    have hitem := (physOf_item_iff hS hR.abs (keyOf kp tl) hwf v n).1
+      ⟨e, he, by rw [hvk]; exact hv, by rw [h2, hkt]; rfl⟩
+    exact ⟨keyOf kp tl, hwf, hkk, hitem.1, hitem.2⟩
+
+/-- `get` of the walk's view = `spec`, and migration of a reachable source state: the destination
+cell of every well-formed key is `expectCell` of the source's abstract value (count 1). -/
+theorem C20_migrate_reachable_notail (cfg : Cfg) (hex : cfg.exact = true)
+    (hgrow : cfg.growOnMove = true) (hpurge : cfg.purge = true) (b0 : Nat) (hb : 16 ≤ b0 ∧ b0 ≤ 49)
+    (acts : List Action) (hact : ∀ a ∈ acts, ActWF a) (hbound : AllBounded (Col.init cfg b0) acts)
+    (s' : Col) (hrun : runA (Col.init cfg b0) acts = .ok s') (dstKind : Kind)
+    (items : List (Item (Nat × Nat) Val)) (hw : walkPhys (physOf s') = some items)
+    (k : Key) (hk : KeyWF k) :
+    (physOf s').content (vis k.pre, k.tail) = (spec (fun _ => none) acts k).map (fun v => (v, 1)) ∧
+    migrateWith items setsOf dstKind (vis k.pre, k.tail) =
+      expectCell dstKind ((spec (fun _ => none) acts k).map (fun v => (v, 1))) := by
+  have hR := C09_run_inv_notail cfg hex hgrow hpurge b0 hb acts hact hbound s' hrun
+  have hI := physOf_invN hR.good.shape hR.good.ns hR.abs
+  have hc : (physOf s').content (vis k.pre, k.tail) =
+      (spec (fun _ => none) acts k).map (fun v => (v, 1)) := by
+    cases hcont : (physOf s').content (vis k.pre, k.tail) with
+    | some c =>
+      obtain ⟨v, n⟩ := c
+      have := (physOf_item_iff hR.good.shape hR.abs k hk v n).1
+        ((content_eq_some_iff_N (physOf s') hI (vis k.pre, k.tail) v n).1 hcont)
+      rw [this.2, this.1]; rfl
+    | none =>
+      cases hsp : spec (fun _ => none) acts k with
+      | none => rfl
+      | some v =>
+        have := (content_eq_some_iff_N (physOf s') hI (vis k.pre, k.tail) v 1).2
+          ((physOf_item_iff hR.good.shape hR.abs k hk v 1).2 ⟨rfl, hsp⟩)
+        rw [hcont] at this; cases this
+  refine ⟨hc, ?_⟩
+  rw [← hc]
+  exact C20_walk_dest_eq_source_notail (physOf s') hI dstKind items hw _
+
+/-- non-vacuity: the twin history of `C09_twin_tails_readable` (two keys with EQUAL tails): the
+walk over the reached state reports the surviving twin with its latest value, not the removed one -/
+example : ∃ s1, runA (Col.init ⟨true, true, true⟩ 16) nsActs = .ok s1 ∧
+    ((vis nsK2.pre, nsK2.tail), 1, "v3") ∈ walkItems (physOf s1) ∧
+    (∀ v n, ((vis nsK1.pre, nsK1.tail), n, v) ∉ walkItems (physOf s1)) ∧
+    ((walkItems (physOf s1)).map (·.1)).Nodup := by
+  obtain ⟨s1, h1, e1, e2, _, _⟩ := nsRun
+  have r := runChecked_sound _ _ _ h1
+  have hw := C20_walk_exact_notail ⟨true, true, true⟩ rfl rfl rfl 16 ⟨by decide, by decide⟩ nsActs
+    nsActs_wf r.2 s1 r.1
+  have l1 := C09_lookup_latest_notail ⟨true, true, true⟩ rfl rfl rfl 16 ⟨by decide, by decide⟩ nsActs
+    nsActs_wf r.2 s1 r.1 nsK1 (keyWFB_sound _ (by decide))
+  have l2 := C09_lookup_latest_notail ⟨true, true, true⟩ rfl rfl rfl 16 ⟨by decide, by decide⟩ nsActs
+    nsActs_wf r.2 s1 r.1 nsK2 (keyWFB_sound _ (by decide))
+  refine ⟨s1, r.1, (hw.2.2.2.1 nsK2 (keyWFB_sound _ (by decide)) "v3" 1).2 ⟨rfl, by rw [← l2]; exact e2⟩,
+    fun v n hmem => ?_, hw.2.2.1⟩
+  have := ((hw.2.2.2.1 nsK1 (keyWFB_sound _ (by decide)) v n).1 hmem).2
+  rw [← l1, e1] at this; cases this
+
+end Pdb.Index
+
 #print axioms Pdb.DumpCheck.C20_walk_nostale_dump
+#print axioms Pdb.Migrate.C20_walk_complete_notail
+#print axioms Pdb.Migrate.C20_walk_dest_eq_source_notail
+#print axioms Pdb.Index.C20_walk_exact_notail
+#print axioms Pdb.Index.C20_migrate_reachable_notail
